@@ -18,13 +18,15 @@ ESC_BAD = ["%E9", "%e9", "%C3", "%A9", "%ED%A0%80", "%C0%80", "%F0%9F"]
 ESC_CTRL = ["%00", "%0A", "%0a", "%7F", "%C2%85", "%1F"]
 # escaped whitespace beyond ASCII (str.strip would eat the decoded character at the end of a URL)
 ESC_USPACE = ["%C2%A0", "%E3%80%80", "%E2%80%83", "%e2%80%a8"]
+# the same characters raw, in the middle of a component (escaped like a raw space is: 8d2b290)
+RAW_USPACE = ["\xa0", "\u3000", "\u2028"]
 MALFORMED = ["%", "%4", "%zz", "%%"]
 SPACE = [" ", "%20"]
 DOUBLE = ["%2541", "%252F", "%2520"]
 # '&amp;' written for '&' (normalize_url repairs it, canonicalize_url must not): as text it is
 # an item boundary followed by the key 'amp;…'
 AMP = ["&amp;", "&amp%3B", "&AMP;"]
-TEXT_ATOMS = LIT + ESC_RESERVED + ESC_UNRESERVED + ESC_UTF8 + ESC_BAD + ESC_CTRL + ESC_USPACE + MALFORMED + SPACE + DOUBLE
+TEXT_ATOMS = LIT + ESC_RESERVED + ESC_UNRESERVED + ESC_UTF8 + ESC_BAD + ESC_CTRL + ESC_USPACE + RAW_USPACE + MALFORMED + SPACE + DOUBLE
 
 # which raw delimiters may appear in which component without changing the parse
 RAW_OK = {
@@ -303,7 +305,11 @@ def t_dot_segments(p, rng):
         return None
     segs = list(p["segments"])
     i = rng.randint(0, len(segs))
-    ins = rng.choice([["."], ["x", ".."], [""], [".", "."], ["x", "y", "..", ".."], ["%2E"], ["x", "%2e%2E"]])
+    choices = [["."], ["x", ".."], [""], [".", "."], ["x", "y", "..", ".."], ["%2E"], ["x", "%2e%2E"]]
+    if i == 0 and (segs or p["trailing"]):
+        # a '..' at the root is dropped (it cannot pop the root): '/../p' resolves to '/p'
+        choices = choices + [[".."], ["..", ".."], ["%2E%2E"], ["..", "x", ".."]] * 2
+    ins = rng.choice(choices)
     # inserting before position i never changes what the rest resolves to
     if i == len(segs) and not p["trailing"]:
         # appending 'x/..' at the very end would add a trailing slash: insert before the last segment instead
